@@ -82,7 +82,7 @@ func family(ctx *core.Ctx) {
 		n++
 		want := core.Canon(normalize(core.E(fc.E)))
 		for _, sp := range []struct{ name, src string }{{"full", fc.Full}, {"min", fc.Min}} {
-			check(ctx, "family-"+sp.name, sp.src, want, featureOf(core.E(fc.E)))
+			checkTree(ctx, "family-"+sp.name, sp.src, want, map[string]interface{}(fc.E), featureOf(core.E(fc.E)))
 		}
 	}
 	ctx.Extra["family_trees"] = n
@@ -124,6 +124,64 @@ func parseTree(src string) (ast.Node, core.E, error) {
 // check: src must parse; (if want != "") the tree must be `want`; String()
 // must parse again to the same tree.
 func check(ctx *core.Ctx, fam, src, want, feature string) {
+	checkTree(ctx, fam, src, want, nil, feature)
+}
+
+// foldNeg folds the negation of a numeric literal into a negative literal
+// (recursively): whether the parser does that is not a matter of C17 (or of any
+// property: both trees denote the same expression), so the comparison of the
+// parsed tree with the specification's tree is made modulo this folding. The
+// print/parse round trip below is still compared exactly.
+func foldNeg(v interface{}) interface{} {
+	switch x := v.(type) {
+	case map[string]interface{}:
+		m := map[string]interface{}{}
+		for k, c := range x {
+			m[k] = foldNeg(c)
+		}
+		if m["k"] == "neg" {
+			if a, ok := m["a"].(map[string]interface{}); ok {
+				switch a["k"] {
+				case "int":
+					return map[string]interface{}{"k": "int", "v": -toInt(a["v"])}
+				case "float":
+					if _, inexact := a["inexact"]; !inexact {
+						return map[string]interface{}{"k": "float", "num": -toInt(a["num"]), "sh": a["sh"]}
+					}
+				}
+			}
+		}
+		return m
+	case []core.E:
+		r := make([]interface{}, len(x))
+		for i, c := range x {
+			r[i] = foldNeg(c)
+		}
+		return r
+	case []interface{}:
+		r := make([]interface{}, len(x))
+		for i, c := range x {
+			r[i] = foldNeg(c)
+		}
+		return r
+	}
+	return v
+}
+
+func toInt(v interface{}) int {
+	switch n := v.(type) {
+	case int:
+		return n
+	case float64:
+		return int(n)
+	case interface{ Int64() (int64, error) }:
+		i, _ := n.Int64()
+		return int(i)
+	}
+	return 0
+}
+
+func checkTree(ctx *core.Ctx, fam, src, want string, wantTree interface{}, feature string) {
 	ctx.AddEvals(1)
 	n1, t1, err := parseTree(src)
 	rep := map[string]interface{}{"src": src}
@@ -133,7 +191,7 @@ func check(ctx *core.Ctx, fam, src, want, feature string) {
 	}
 	c1 := core.Canon(t1)
 	ctx.Distinct(c1)
-	if want != "" && c1 != want && !equalModNegLit(c1, want) {
+	if want != "" && c1 != want && core.Canon(foldNeg(t1)) != core.Canon(foldNeg(wantTree)) {
 		rep["tree"] = t1
 		rep["expected"] = want
 		ctx.Violation(core.Sig{Family: fam, Feature: "parser-tree-differs," + feature}, fmt.Sprintf("%s parsed to %s, the language defines %s", src, c1, want), rep)
